@@ -202,6 +202,135 @@ Section NamingProofs.
         destruct x as [[n cc] cr]. cbn [fst]. destruct Hx as [_ Hl]. unfold content_of. now rewrite (Hp2 _ _ Hl).
       + intros m e Hm. apply Hp2. now apply Hp1.
   Qed.
+
+  (** ** Redeploying the unchanged package: same names, nothing created *)
+
+  Lemma slice_loop_fuel_bound fuel : forall st c cc st' n cc' cr,
+    slice_loop fuel st c cc = (st', NUsed n cc' cr) -> (N.to_nat cc' - N.to_nat cc < fuel)%nat.
+  Proof.
+    induction fuel as [|f IH]; intros st c cc st' n cc' cr; cbn [Slices.slice_loop]; [discriminate|].
+    destruct (try_cc ceqb hash st c cc).
+    - intros H. injection H as <- <- <- <-. lia.
+    - intros H. injection H as <- <- <- <-. lia.
+    - intros H. apply IH in H. lia.
+  Qed.
+
+  Lemma slice_loop_reuse fuel : forall st c cc0 cc,
+    cc0 <= cc -> (N.to_nat cc - N.to_nat cc0 < fuel)%nat ->
+    (forall k, cc0 <= k < cc -> try_cc ceqb hash st c k = ACollision) ->
+    nlookup (slice_name hash c cc) st = Some {| es_content := c; es_ctrl := true |} ->
+    slice_loop fuel st c cc0 = (st, NUsed (slice_name hash c cc) cc false).
+  Proof.
+    induction fuel as [|f IH]; intros st c cc0 cc Hle Hf Hcol Hl; [lia|]. cbn [Slices.slice_loop].
+    destruct (N.eq_dec cc0 cc) as [->|Hne].
+    - unfold try_cc. rewrite Hl. cbn [es_ctrl es_content andb].
+      assert (ceqb c c = true) as -> by now apply ceqb_spec. reflexivity.
+    - rewrite (Hcol cc0) by lia. apply IH; try lia; [|assumption]. intros k Hk. apply Hcol. lia.
+  Qed.
+
+  Definition collides_in (st : nstore C) (c : C) (k : N) : Prop :=
+    exists e, nlookup (slice_name hash c k) st = Some e /\ (es_content e <> c \/ es_ctrl e = false).
+
+  Lemma try_cc_collision st c k : collides_in st c k -> try_cc ceqb hash st c k = ACollision.
+  Proof.
+    intros (e & He & Hd). unfold try_cc. rewrite He. destruct (es_ctrl e) eqn:Ec; [|reflexivity]. cbn.
+    destruct (ceqb (es_content e) c) eqn:Eq; [|reflexivity]. apply ceqb_spec in Eq. destruct Hd; congruence.
+  Qed.
+
+  (** A chunk that was stored once is found again under the same name in every later store that kept the
+      existing slices. *)
+  Lemma reconcile_slice_again st c st1 n cc cr st2 :
+    reconcile_slice st c = (st1, NUsed n cc cr) ->
+    (forall m e, nlookup m st1 = Some e -> nlookup m st2 = Some e) ->
+    (length st <= length st2)%nat ->
+    reconcile_slice st2 c = (st2, NUsed n cc false).
+  Proof.
+    intros H Hpres Hlen. pose proof H as H0. apply slice_names in H0. destruct H0 as (Hn & Hl & _ & _ & Hp & Hcol).
+    unfold Slices.reconcile_slice in *. pose proof (slice_loop_fuel_bound _ _ _ _ _ _ _ _ H) as Hb. subst n.
+    apply slice_loop_reuse; try lia.
+    - intros k Hk. apply try_cc_collision. destruct (Hcol k) as (e & He & Hd); [lia|]. exists e. split; [|assumption]. apply Hpres. now apply Hp.
+    - now apply Hpres.
+  Qed.
+
+  Lemma chunk_phase_length chunks : forall st st' r, chunk_phase st chunks = (st', r) -> (length st <= length st')%nat.
+  Proof.
+    induction chunks as [|c cs IH]; intros st st' r; cbn [Slices.chunk_phase].
+    - intros H. injection H as <- <-. lia.
+    - destruct (reconcile_slice st c) as [st1 [n cc cr|]] eqn:E1.
+      + assert (length st <= length st1)%nat.
+        { unfold Slices.reconcile_slice in E1. destruct (slice_loop_spec _ _ _ _ _ _ _ _ E1) as (_ & _ & _ & Hcr & _).
+          destruct cr; [destruct Hcr as [_ ->]; cbn; lia|subst; lia]. }
+        destruct (chunk_phase st1 cs) as [st2 [l|]] eqn:E2; intros H0; injection H0 as <- <-; apply IH in E2; lia.
+      + intros H. injection H as <- <-. unfold Slices.reconcile_slice in E1. clear -E1.
+        revert E1. generalize (S (length st)). intros fuel. revert st. generalize 0.
+        induction fuel as [|f IH]; intros cc st; cbn [Slices.slice_loop]; [intros H; injection H as <-; lia|].
+        destruct (try_cc ceqb hash st c cc); try discriminate. apply IH.
+  Qed.
+
+  Definition reused (l : list (N * N * bool)) : list (N * N * bool) := map (fun x => (fst (fst x), snd (fst x), false)) l.
+
+  Lemma reconcile_slice_length st c st1 r : reconcile_slice st c = (st1, r) -> (length st <= length st1)%nat.
+  Proof.
+    intros E1. destruct r as [n cc cr|].
+    - unfold Slices.reconcile_slice in E1. destruct (slice_loop_spec _ _ _ _ _ _ _ _ E1) as (_ & _ & _ & Hcr & _).
+      destruct cr; [destruct Hcr as [_ ->]; cbn; lia|subst; lia].
+    - unfold Slices.reconcile_slice in E1. revert E1. generalize (S (length st)). intros fuel. generalize 0.
+      induction fuel as [|f IH]; intros cc; cbn [Slices.slice_loop]; [intros H; injection H as <-; lia|].
+      destruct (try_cc ceqb hash st c cc); try discriminate. apply IH.
+  Qed.
+
+  Lemma chunk_phase_again chunks : forall st st1 l st2,
+    chunk_phase st chunks = (st1, Some l) ->
+    (forall m e, nlookup m st1 = Some e -> nlookup m st2 = Some e) -> (length st1 <= length st2)%nat ->
+    chunk_phase st2 chunks = (st2, Some (reused l)).
+  Proof.
+    induction chunks as [|c cs IH]; intros st st1 l st2; cbn [Slices.chunk_phase].
+    - intros H _ _. injection H as <- <-. reflexivity.
+    - destruct (reconcile_slice st c) as [sta [n cc cr|]] eqn:E1; [|discriminate].
+      destruct (chunk_phase sta cs) as [stb [l'|]] eqn:E2; [|discriminate].
+      intros H Hpres Hlen. injection H as <- <-.
+      pose proof (reconcile_slice_length _ _ _ _ E1) as L1. pose proof (chunk_phase_length _ _ _ _ E2) as L2.
+      assert (Hpa : forall m e, nlookup m sta = Some e -> nlookup m st2 = Some e).
+      { intros m e Hm. apply Hpres. eapply chunk_phase_preserves; eauto. }
+      rewrite (reconcile_slice_again _ _ _ _ _ _ _ E1 Hpa) by lia.
+      now rewrite (IH _ _ _ st2 E2 Hpres Hlen).
+  Qed.
+
+  Lemma chunk_phases_length phases : forall st st' r,
+    Slices.chunk_phases ceqb hash st phases = (st', r) -> (length st <= length st')%nat.
+  Proof.
+    induction phases as [|chunks r IH]; intros st st' res; cbn [Slices.chunk_phases].
+    - intros H. injection H as <- <-. lia.
+    - destruct (chunk_phase st chunks) as [st1 [l|]] eqn:E1.
+      + pose proof (chunk_phase_length _ _ _ _ E1).
+        destruct (Slices.chunk_phases ceqb hash st1 r) as [st2 [ls|]] eqn:E2; intros H0; injection H0 as <- <-; apply IH in E2; lia.
+      + intros H. injection H as <- <-. eapply chunk_phase_length; eauto.
+  Qed.
+
+  Lemma chunk_phases_again phases : forall st st1 ls st2,
+    Slices.chunk_phases ceqb hash st phases = (st1, Some ls) ->
+    (forall m e, nlookup m st1 = Some e -> nlookup m st2 = Some e) -> (length st1 <= length st2)%nat ->
+    Slices.chunk_phases ceqb hash st2 phases = (st2, Some (map reused ls)).
+  Proof.
+    induction phases as [|chunks r IH]; intros st st1 ls st2; cbn [Slices.chunk_phases].
+    - intros H _ _. injection H as <- <-. reflexivity.
+    - destruct (chunk_phase st chunks) as [sta [l|]] eqn:E1; [|discriminate].
+      destruct (Slices.chunk_phases ceqb hash sta r) as [stb [ls'|]] eqn:E2; [|discriminate].
+      intros H Hpres Hlen. injection H as <- <-.
+      pose proof (chunk_phases_length _ _ _ _ E2) as L2.
+      assert (Hpa : forall m e, nlookup m sta = Some e -> nlookup m st2 = Some e).
+      { intros m e Hm. apply Hpres. destruct (chunk_phases_lossless _ _ _ _ E2) as [_ Hp]. now apply Hp. }
+      rewrite (chunk_phase_again _ _ _ _ st2 E1 Hpa) by lia.
+      now rewrite (IH _ _ _ st2 E2 Hpres Hlen).
+  Qed.
+
+  (** Redeploying the unchanged package (same phases, same chunks) right after a deploy: every chunk is found
+      under the name it got the first time, nothing is created, the store is unchanged - for every hash function
+      and whatever slices existed before. *)
+  Theorem redeploy_unchanged phases st st1 ls :
+    Slices.chunk_phases ceqb hash st phases = (st1, Some ls) ->
+    Slices.chunk_phases ceqb hash st1 phases = (st1, Some (map reused ls)).
+  Proof. intros H. eapply chunk_phases_again; eauto. Qed.
 End NamingProofs.
 
 (** The Go loop has no bound: with a hash that ignores the collision count and a foreign slice under that
